@@ -6,8 +6,9 @@
    `x <- m ;; k` is the exception monad: a law such as
    (t <- plus a b ;; plus t c) = (t <- plus b c ;; plus a t) also says that neither side raises. *)
 From Coq Require Import Reals Lra ZArith Bool String List.
-From PL.C12 Require Import ModelPy ModelR GenSemirings SpecSemiring ProofsProb ProofsLog ProofsDefaults.
+From PL.C12 Require Import ModelPy ModelR GenSemirings SpecSemiring ProofsProb ProofsLog ProofsDefaults ProofsSym.
 Import ListNotations.
+Local Open Scope string_scope.
 Local Open Scope R_scope.
 
 (* ---------------------------------------------------------------- probability *)
@@ -161,6 +162,47 @@ Theorem C12_sym_defaults :
 Proof. exact (conj sym_is_one_one (conj sym_is_zero_zero sym_normalize_one)). Qed.
 Print Assumptions C12_sym_defaults.
 
+(* ---------------------------------------------------------------- symbolic semiring *)
+(* den_prod atomic aval s v : the string s reads, under the standard expression grammar (parentheses,
+   then left-associative * and " / ", then left-associative " + " and "-"), as a product-level expression
+   of value v; atoms are the strings in `atomic` with value `aval` ("0" and "1" mean 0 and 1).
+   Every operation of SemiringSymbolic maps strings with a reading to a string with the reading of the
+   corresponding real operation (normalize included, with the divisor parenthesised).
+   FULL STATEMENT WANTED: the same with a *functional* denotation (each string has exactly one value).
+   _partial because uniqueness of the reading (unambiguity of the grammar) is not proved here; the harness
+   reads the strings with Python's own expression parser and compares with exact rational evaluation. *)
+Theorem C12_symbolic_homomorphism_partial : forall (atomic : string -> Prop) (aval : string -> R),
+  (forall s, atomic s -> (1 <= String.length s)%nat) -> aval "0" = 0 -> aval "1" = 1 -> atomic "0" -> atomic "1" ->
+  (exists s, sym_zero Rops = Ok s /\ den_prod atomic aval s 0) /\
+  (exists s, sym_one Rops = Ok s /\ den_prod atomic aval s 1) /\
+  (forall x, atomic x -> exists s, sym_value Rops x = Ok s /\ den_prod atomic aval s (aval x)) /\
+  (forall a b va vb, den_prod atomic aval a va -> den_prod atomic aval b vb ->
+     (exists s, sym_plus Rops a b = Ok s /\ den_prod atomic aval s (va + vb)) /\
+     (exists s, sym_times Rops a b = Ok s /\ den_prod atomic aval s (va * vb)) /\
+     (exists s, sym_negate Rops a = Ok s /\ den_prod atomic aval s (1 - va)) /\
+     (exists s, sym_normalize Rops a b = Ok s /\ den_prod atomic aval s (va / vb))) /\
+  (forall ws vs, Forall2 (den_prod atomic aval) ws vs ->
+     exists s, sym_ad_complement Rops ws = Ok s /\ den_prod atomic aval s (1 - fold_left Rplus vs 0)).
+Proof. exact sym_homomorphism. Qed.
+Print Assumptions C12_symbolic_homomorphism_partial.
+
+(* commutativity, associativity and distributivity under the denotation: both sides of each law return
+   strings that have a common reading *)
+Theorem C12_symbolic_laws_partial : forall (atomic : string -> Prop) (aval : string -> R),
+  (forall s, atomic s -> (1 <= String.length s)%nat) -> aval "0" = 0 -> aval "1" = 1 -> atomic "0" -> atomic "1" ->
+  forall a b c va vb vc, den_prod atomic aval a va -> den_prod atomic aval b vb -> den_prod atomic aval c vc ->
+  (exists s1 s2 v, sym_plus Rops a b = Ok s1 /\ sym_plus Rops b a = Ok s2 /\ den_prod atomic aval s1 v /\ den_prod atomic aval s2 v) /\
+  (exists s1 s2 v, sym_times Rops a b = Ok s1 /\ sym_times Rops b a = Ok s2 /\ den_prod atomic aval s1 v /\ den_prod atomic aval s2 v) /\
+  (exists s1 s2 v, (t <- sym_plus Rops a b ;; sym_plus Rops t c) = Ok s1 /\ (t <- sym_plus Rops b c ;; sym_plus Rops a t) = Ok s2 /\
+                   den_prod atomic aval s1 v /\ den_prod atomic aval s2 v) /\
+  (exists s1 s2 v, (t <- sym_times Rops a b ;; sym_times Rops t c) = Ok s1 /\ (t <- sym_times Rops b c ;; sym_times Rops a t) = Ok s2 /\
+                   den_prod atomic aval s1 v /\ den_prod atomic aval s2 v) /\
+  (exists s1 s2 v, (t <- sym_plus Rops b c ;; sym_times Rops a t) = Ok s1 /\
+                   (x <- sym_times Rops a b ;; y <- sym_times Rops a c ;; sym_plus Rops x y) = Ok s2 /\
+                   den_prod atomic aval s1 v /\ den_prod atomic aval s2 v).
+Proof. exact sym_laws_under_den. Qed.
+Print Assumptions C12_symbolic_laws_partial.
+
 (* ---------------------------------------------------------------- non-vacuity *)
 Example C12_domains_inhabited :
   Dprob (RF (3/8)) /\ Dunit (RF (3/8)) /\ Dlog (llog (3/8)) /\ Dlog FNInf /\ proper (RF 1).
@@ -169,4 +211,19 @@ Proof.
   - apply Dlog_llog.
   - left; reflexivity.
   - discriminate.
+Qed.
+
+(* the hypotheses on atoms are satisfiable, and the strings are the ones the code builds *)
+Example C12_symbolic_example :
+  let atomic := fun s : string => s = "0" \/ s = "1" \/ s = "x" \/ s = "y" in
+  let aval := fun s : string => if String.eqb s "1" then 1 else if String.eqb s "x" then 3/8 else if String.eqb s "y" then 1/4 else 0 in
+  (forall s, atomic s -> (1 <= String.length s)%nat) /\ aval "0" = 0 /\ aval "1" = 1 /\ atomic "0" /\ atomic "1" /\
+  den_prod atomic aval "x" (3/8) /\
+  sym_plus Rops "x" "y" = Ok "(x + y)" /\ sym_times Rops "(x + y)" "x" = Ok "(x + y)*x" /\
+  sym_normalize Rops "x" "(x + y)*x" = Ok "x / ((x + y)*x)" /\ sym_negate Rops "x" = Ok "(1-x)".
+Proof.
+  cbv zeta. repeat split; try reflexivity; auto.
+  - intros s [ -> | [ -> | [ -> | -> ] ] ]; cbn; auto.
+  - change (3/8) with ((fun s : string => if String.eqb s "1" then 1 else if String.eqb s "x" then 3/8 else if String.eqb s "y" then 1/4 else 0) "x") at 2.
+    apply DP_atom, DA_atom. auto.
 Qed.
